@@ -11,4 +11,9 @@ def run(ctx):
         return core.finish(ctx)
     if drv:
         ps.run_pubsub(ctx, {ps.BORROW}, line_oracle=ps.both(ps.panic_oracle, ps.oom_oracle), sat_share=2)
+        # one channel of the real zero-copy connection, sender and receiver calls interleaved call by call
+        # (the level at which the completion queue size is decided): a refused release inside the protocol is a violation
+        quick = ctx.tier == "quick"
+        core.diff_component(ctx, "zcc", ["gen", "--seed", ctx.seed, "--cases", 6000 if quick else 80000, "--len", 40 if quick else 60],
+                            lambda case, idx, io, mo: "zcc:" + case[idx][0].split(" ")[0], label="zcc")
     return core.finish(ctx, level="proof", rule=ps.RULE, extra_assumptions=ps.ASSUME)
